@@ -243,6 +243,10 @@ SortNoTypeError == Sorted(tree, "pre").exc # "TypeError"
 (* Export                                                                   *)
 \* rows: one per distinct tree (an INVARIANT is evaluated once per distinct state)
 ExportRow == phase = "grow" => PrintT(<<"EXPORT", ToJson(Row(tree))>>)
+\* rows for sorted_tests alone (bigger trees, no filter table)
+SortRow(t) == [nodes |-> Nodes(t), leaves |-> LeafObs(t), filt |-> <<>>,
+               sorted |-> Sorted(t, "pre"), sortedPost |-> Sorted(t, "post")]
+ExportSortRow == phase = "grow" => PrintT(<<"EXPORT", ToJson(SortRow(tree))>>)
 \* behaviours (simulation): grow, filter in place MaxOps times, sort
 ExportC == phase = "done" => PrintT(<<"EXPORT", ToJson(hist)>>)
 ViewNoHist == <<tree, phase, nops>>
